@@ -35,6 +35,9 @@ pub(crate) enum CheckedActionFeeError {
     #[error("`{action_name}` action is disabled (fees not set for this action)")]
     ActionDisabled { action_name: &'static str },
 
+    #[error("fee for `{action_name}` action overflows u128")]
+    FeeOverflow { action_name: &'static str },
+
     #[error("fee asset {fee_asset} for `{action_name}` action is not allowed")]
     FeeAssetIsNotAllowed {
         fee_asset: Denom,
